@@ -283,6 +283,16 @@ def _js(o):
     return repr(o)
 
 
+class TlaSet(list):
+    """marks a Python list to be written as a TLA+ set literal"""
+
+
+class TlaRaw(object):
+    """a TLA+ expression written verbatim"""
+    def __init__(self, text):
+        self.text = text
+
+
 def tla_literal(o):
     """Python value -> TLA+ literal (dict -> record, list -> tuple, str, int, bool)."""
     if isinstance(o, bool):
@@ -291,6 +301,10 @@ def tla_literal(o):
         return str(o) if o >= 0 else "(%d)" % o
     if isinstance(o, str):
         return '"' + o.replace("\\", "\\\\").replace('"', '\\"') + '"'
+    if isinstance(o, TlaSet):
+        return "{" + ",".join(tla_literal(x) for x in o) + "}"
+    if isinstance(o, TlaRaw):
+        return o.text
     if isinstance(o, (list, tuple)):
         return "<<" + ",".join(tla_literal(x) for x in o) + ">>"
     if isinstance(o, dict):
@@ -316,3 +330,17 @@ def write_json(path, obj):
     with open(path, "w") as f:
         json.dump(obj, f, default=_js)
     return path
+
+
+def pmap(func, items, nproc=None, chunk=None):
+    """Parallel map over processes (fork). func must be a module-level function taking one item
+    and returning a picklable result. Order preserved."""
+    import multiprocessing as mp
+    items = list(items)
+    nproc = nproc or NCPU
+    if len(items) < 64 or nproc <= 1:
+        return [func(x) for x in items]
+    ctx = mp.get_context("fork")
+    chunk = chunk or max(1, len(items) // (nproc * 8))
+    with ctx.Pool(nproc) as pool:
+        return pool.map(func, items, chunksize=chunk)
